@@ -58,6 +58,11 @@ def targets(sd, cfg):
         owners[path] = c
 
     def visit(path, node, value):
+        raw = node.get("rawkey")
+        if raw is not None and not (raw.isidentifier() and not raw.startswith("_")):
+            # an undeclared key that is not a plain identifier ("a.b", "x-y", "_tok"): a dotted path cannot address it, so no
+            # operation aims at it (it still shows in every snapshot)
+            return
         op, _ = split_last(path)
         out.append(Target(path, node, value, owners.get(op), op))
 
